@@ -116,8 +116,8 @@ func c09Remote(r *core.Run) {
 	netBuf := core.Pick(t, "socket-buffer", 4<<10, 64<<10, 256<<10, 1<<20)
 	// a medium error on the client's input: the n-th read of the file fails
 	readFaultAt := 0
-	if t.Chance(1, 8, "input-read-fault") {
-		readFaultAt = 1 + t.Choose(24, "input-read-fault-at")
+	if t.Chance(1, 5, "input-read-fault") {
+		readFaultAt = 1 + t.Choose(core.Pick(t, "input-read-fault-range", 6, 6, 24), "input-read-fault-at")
 	}
 	readFaultFired := false
 	var attempts []c09Attempt
